@@ -35,6 +35,9 @@ type Tap struct {
 	// Before, if set, is called (without locks) before every Read/Write; it may
 	// sleep to widen interleavings.
 	Before func(dir string, op string)
+	// BeforeWrite, if set, is called (without locks) with the bytes of every Write before
+	// they are delivered; it may sleep (hold a record back).
+	BeforeWrite func(dir string, p []byte)
 	// WriteErr, if set, may return an error instead of performing a write.
 	WriteErr func(dir string, off int, n int) error
 }
@@ -182,6 +185,9 @@ func (c *Conn) Read(p []byte) (int, error) {
 func (c *Conn) Write(p []byte) (int, error) {
 	if f := c.tap.Before; f != nil {
 		f(c.dir, "write")
+	}
+	if f := c.tap.BeforeWrite; f != nil {
+		f(c.dir, p)
 	}
 	c.Writes.Add(1)
 	if c.closed.Load() {
